@@ -36,38 +36,16 @@ def pointsOf (ops : List Op) : List Point := ops.flatMap pointOf
 def curMem (s : Shard) (tick fam : Nat) : MemDB :=
   match (s.family fam).mutable_ with
   | some md => md
-  | none => ⟨tick, []⟩
+  | none => ⟨s.newCreated tick, []⟩
 
 def curPage (s : Shard) (tick fam ser fld : Nat) : Buf :=
   (Map.lookup (curMem s tick fam).pages (ser, fld)).getD (Buf.fresh s.window)
 
-/-- flush of this family keeps the slot maps: every page's aggregate is commutative or no slot
-is both in its window and its compress buffer. -/
-def goodFlush (s : Shard) (fam : Nat) : Bool :=
-  match (s.family fam).mutable_ with
-  | none => true
-  | some md => md.pages.all (fun (p : PageKey × Buf) => AggType.isComm (s.fieldAgg p.1.2) || !overlapB p.2)
-
-def goodFlushAll : Shard → List Nat → Bool
-  | _, [] => true
-  | s, fam :: rest => goodFlush s fam && goodFlushAll (s.flush fam) rest
-
-/-- the hypotheses of the refinement, checked step by step against the state:
-* the field is registered with this type (the schema is fixed before the writes),
-* the page step is good (`goodStep`: not the end-shrinking step; a compaction of a first/last page
-  only without overlap),
-* a write that creates a memory database gets a created-time that no live memory database has,
-* flushes of first/last pages only without overlap. -/
+/-- the only condition left on a history: every write uses the type its field is registered with
+(the schema is fixed before the writes; lindb rejects a field written with another type). -/
 def goodOp (s : Shard) : Op → Bool
-  | .write tick fam ser fld ft slot _ =>
-    (Map.lookup s.fieldTypes fld == some ft) &&
-    goodStep s.window ft.aggType (curPage s tick fam ser fld) slot &&
-    (match (s.family fam).mutable_ with
-      | some _ => true
-      | none => (Map.lookup s.ranges tick).isNone)
-  | .flush fam => goodFlush s fam
-  | .compact _ => true
-  | .reopen => goodFlushAll s (s.families.map Prod.fst)
+  | .write _ _ _ fld ft _ _ => Map.lookup s.fieldTypes fld == some ft
+  | _ => true
 
 def goodOps : Shard → List Op → Bool
   | _, [] => true
@@ -94,13 +72,13 @@ def storeView (s : Shard) (fam ser fld t : Nat) : Option Int :=
 /-! ### small facts about maps -/
 
 theorem family_upsert_self (s : Shard) (fam : Nat) (f : Family) (rs : List (Nat × (Nat × Nat)))
-    (fts : List (Nat × FieldType)) (kn : List Nat) :
-    (Shard.mk s.window (Map.upsert s.families fam f) rs fts kn).family fam = f := by
+    (fts : List (Nat × FieldType)) (kn : List Nat) (nt : Nat) :
+    (Shard.mk s.cfg s.window (Map.upsert s.families fam f) rs fts kn nt).family fam = f := by
   simp [Shard.family, Map.lookup_upsert_self]
 
 theorem family_upsert_ne (s : Shard) (fam fam2 : Nat) (f : Family) (rs : List (Nat × (Nat × Nat)))
-    (fts : List (Nat × FieldType)) (kn : List Nat) (h : fam ≠ fam2) :
-    (Shard.mk s.window (Map.upsert s.families fam f) rs fts kn).family fam2 = s.family fam2 := by
+    (fts : List (Nat × FieldType)) (kn : List Nat) (nt : Nat) (h : fam ≠ fam2) :
+    (Shard.mk s.cfg s.window (Map.upsert s.families fam f) rs fts kn nt).family fam2 = s.family fam2 := by
   simp [Shard.family, Map.lookup_upsert_ne _ _ _ _ h]
 
 theorem lookup_map_val {κ : Type} [DecidableEq κ] {α β : Type} (m : List (κ × α)) (f : κ → α → β) (k : κ) :
